@@ -420,9 +420,12 @@ func (st *Runtime) executeList(list *ListNode) (returnValue reflect.Value) {
 			if node.Set != nil {
 				if node.Set.Let {
 					if !inNewScope {
+						// restore the scope saved here (not "the parent of whatever is current"):
+						// a panic may unwind through constructs that never released theirs
+						outer := st.scope
 						st.newScope()
 						inNewScope = true
-						defer st.releaseScope()
+						defer func() { st.scope = outer }()
 					}
 					st.executeLetList(node.Set)
 				} else {
@@ -626,8 +629,9 @@ func (st *Runtime) executeInclude(node *IncludeNode) (returnValue reflect.Value)
 		return reflect.Value{}
 	}
 
+	outer := st.scope
 	st.newScope()
-	defer st.releaseScope()
+	defer func() { st.scope = outer }()
 
 	st.blocks = t.processedBlocks
 
